@@ -27,4 +27,5 @@ from pv.translator import envimp as _envimp
 _envimp.generate(core.REPO, core.LEAN / "Pun/Gen/EnvImpGen.lean")
 from pv.translator import numops as _numops
 _numops.generate(core.REPO, core.LEAN / "Pun/Gen/NumOpsGen.lean")
+_frechet.generate_corners(core.REPO, core.LEAN / "Pun/Gen/CornersGen.lean")
 print("generated")
